@@ -7,7 +7,7 @@ prop=$1; out=$2; k=$3
 export GOFLAGS=-mod=mod GOPROXY=off GOSUMDB=off GOTOOLCHAIN=local; unset GOWORK
 W=$(mktemp -d /tmp/sevXXXX); rmdir $W
 git -C /repo worktree add -q --detach $W HEAD || exit 2
-V=$(mktemp -d /tmp/sevvXXXX); cp /verif/known_findings.json $V/; mkdir -p $V/checker; ln -s /verif/checker/fixtures $V/checker/fixtures
+V=$(mktemp -d /tmp/sevvXXXX); cp /verif/known_findings.json /verif/reference_funcs.json $V/ 2>/dev/null; mkdir -p $V/checker; ln -s /verif/checker/fixtures $V/checker/fixtures
 res="prop=$prop change=$k"
 demo=$out/demo${k}_test.go.txt
 dest=$(head -3 $demo | grep -o 'copy to: *[^ ]*' | sed 's/copy to: *//')
